@@ -37,7 +37,7 @@ def gen_events(rng, allow_deferred, only_deferred=False):
 
 
 def gen_program(rng, profile=None, nstmts=None):
-    return gen_prog.gen_program(random.Random(rng.random()), profile or rng.choice(["core", "core", "wide"]), nstmts=nstmts or rng.choice([2, 3, 4]))
+    return gen_prog.gen_program(random.Random(rng.random()), profile or rng.choice(["core", "core", "wide"]), nstmts=nstmts or rng.choice([2, 3, 4]), head=True)
 
 
 CERT_HEADER = """From Coq Require Import List ZArith NArith Bool.
